@@ -177,10 +177,31 @@ def classify(case):
     if case["weakly"]:
         info["inf"] = len(part[-1])
         info["layers"] = len(part) - 1
+        info["fin"] = part[:-1]
+        info["infl"] = part[-1]
     else:
         info["layers"] = len(part)
+        info["fin"] = part
+        info["infl"] = []
     info["status"] = "ok"
     return info
+
+
+def top_ties(case, info_part, q, W):
+    """number of inclusion-minimal falsification sets of the top finite layer shared by verifying and falsifying worlds"""
+    if not info_part:
+        return 0
+    conds = [(b, a) for _, b, a in case["base"]]
+    top = info_part[-1]
+    c = (q[1], q[2])
+
+    def fam(worlds):
+        sets = {frozenset(i for i in top if core.c_fal(conds[i], w)) for w in worlds}
+        return {s for s in sets if not any(t < s for t in sets)}
+
+    V = fam([w for w in W if core.c_ver(c, w)])
+    F = fam([w for w in W if core.c_fal(c, w)])
+    return len(V & F)
 
 
 def query_kind(case, q, W=None):
@@ -201,7 +222,7 @@ def query_kind(case, q, W=None):
 # --------------------------------------------------------------------------------------
 
 def gen_cases(ctx, count, n_range, k_range, weakly_modes, want=("ok",), q_per=6, consts=0.05, depth=2,
-              outside_sig=0.1, max_tries=40):
+              outside_sig=0.1, max_tries=40, ties=0.0):
     """generate cases whose base status (by brute force classification) is in `want`"""
     rng = ctx.rng
     cases = []
@@ -211,12 +232,16 @@ def gen_cases(ctx, count, n_range, k_range, weakly_modes, want=("ok",), q_per=6,
         n = rng.randint(*n_range)
         k = rng.randint(*k_range)
         weakly = rng.choice(weakly_modes)
-        conds = core.gen_base(rng, n, k, depth=depth, consts=consts)
         nq = n
-        if rng.random() < outside_sig:
-            nq = n + 1
         queries = []
-        for j in range(q_per):
+        if rng.random() < ties and n_range[1] >= 4:
+            n = nq = rng.randint(max(4, n_range[0]), n_range[1])
+            conds, queries = core.gen_tie_case(rng, n)
+        else:
+            conds = core.gen_base(rng, n, k, depth=depth, consts=consts)
+            if rng.random() < outside_sig:
+                nq = n + 1
+        for j in range(q_per - len(queries)):
             r = rng.random()
             if r < 0.15 and conds:
                 queries.append(rng.choice(conds))  # the base's own conditionals
@@ -255,6 +280,14 @@ def run_cases(ctx, cases, configs, nontrivial):
             for q, row in zip(c["queries"], model[1]):
                 qk = query_kind(c, q, W)
                 ctx.bump(f"query={qk}")
+                if qk == "contingent" and info.get("fin") is not None:
+                    conds_ = [(b, a) for _, b, a in c["base"]]
+                    Wf = [w for w in W if not any(core.c_fal(conds_[i], w) for i in info["infl"])]
+                    t = top_ties(c, info["fin"], q, Wf)
+                    ctx.bump(f"top_layer_ties={min(t, 3)}{'+' if t >= 3 else ''}")
+                    row = row + (t,)
+                if row[0] != row[1] or row[1] != row[2] or row[2] != row[3]:
+                    ctx.bump("operators_disagree(p,z,w,lex)=" + "".join("T" if b else "F" for b in row[:4]))
                 for (system, _pm) in configs:
                     ctx.bump(f"{system}:{'T' if row[SYS_COL[system]] else 'F'}")
                 if nontrivial(c, info, qk, row):
